@@ -775,6 +775,51 @@ func extCases(tier string, seed int64) []eng.Case {
 			add("scal", fmt.Sprintf("scal/b%d/pos%d", b, pos), rc, runScalar)
 		}
 	}
+	// A2. quotient-estimate boundary of the modular products (tiny-residue pairs): large primes at every position
+	qb := []int{61, 60, 59, 58, 55, 45, 31}
+	if thorough {
+		qb = bitSizes
+	}
+	for _, b := range qb {
+		for pos := 0; pos < 4; pos++ {
+			pr := gen.Primes(b, 16, 1+r.N(3), pos, nil)
+			if len(pr) == 0 {
+				continue
+			}
+			rc := ringCfg{Type: "std", LogN: 3, Moduli: pr[len(pr)-1:], Bits: []int{b}, Pos: pos}
+			add("quot", fmt.Sprintf("quot/b%d/pos%d", b, pos), rc, runQuot)
+		}
+	}
+	// ... and primes at a distance 2^40..2^53 from 2^64/j: the low word of floor(2^128/q) is next to its maximum
+	// (above) or minimum (below) while the fraction the constant discards is generic (right next to 2^64/j or
+	// to a power of two it vanishes, and with it the worst case of the estimate)
+	js := []uint64{9, 10, 11, 12, 13, 14, 15, 17, 19, 23, 29, 31, 33, 47, 63, 65, 127, 1023, 1<<20 + 1}
+	if thorough {
+		for j := uint64(18); j < 64; j++ {
+			js = append(js, j)
+		}
+	}
+	for _, j := range js {
+		for _, down := range []bool{false, true} {
+			// q*j = 2^64 +- e: the low word of the constant is 2^64 - j*e resp. j*e, its discarded fraction
+			// ~ j*e^2/2^64 mod 1 is generic once e >> 2^32
+			e := uint64(1)<<40 + r.U64()%(uint64(1)<<(41+uint(r.N(12))))
+			at := ^uint64(0)/j + e/j
+			if down {
+				at = ^uint64(0)/j - e/j
+			}
+			pr := gen.PrimesFrom(at, 16, 1+r.N(3), down)
+			if len(pr) == 0 {
+				continue
+			}
+			q := pr[len(pr)-1]
+			rc := ringCfg{Type: "std", LogN: 3, Moduli: []uint64{q}, Bits: []int{ref.BitLen(q)}, Pos: 4}
+			if down {
+				rc.Pos = 5
+			}
+			add("quot", fmt.Sprintf("quot/j%d/down=%v", j, down), rc, runQuot)
+		}
+	}
 	// B. vector kernels under length / sub-slice / aliasing layouts: N = 16, every bit size
 	for _, b := range append([]int{6, 7}, bitSizes...) {
 		for pos := 0; pos < 4; pos++ {
